@@ -55,6 +55,7 @@ func newFootprintFromFont(f *font.Font, location Location, md font.Description) 
 	out.Langs = newLangsetFromCoverage(out.Runes)
 	out.Family = font.NormalizeFamily(md.Family)
 	out.Aspect = md.Aspect
+	out.Aspect.SetDefaults() // the matching algorithm requires valid values
 	out.Location = location
 	out.isUserProvided = true
 	return out
